@@ -10,11 +10,16 @@ SPEC = Spec(
         Harness(name="router", module="connector", pkg="connector",
                 files={"zz_verif_c06_router_test.go": "c06/router_test.go"},
                 test="TestVerifC06Router", driver="drv_c06", n={"quick": 300, "thorough": 3000}),
+        Harness(name="exporter", module="exporter", pkg="exporter/exporterhelper",
+                files={"zz_verif_c06_exporter_test.go": "c06/exporter_test.go"},
+                test="TestVerifC06Exporter", driver="drv_c06", n={"quick": 200, "thorough": 3000}),
         Harness(name="graph", module="service", pkg="service/internal/graph",
                 files={"zz_verif_c06_graph_test.go": "c06/graph_test.go"},
                 test="TestVerifC06Graph", driver="drv_c06", n={"quick": 400, "thorough": 5000}),
     ],
-    rule="router: connector.New{Logs,Metrics,Traces}Router(...).Consumer(selected pipelines...) on random pipeline sets and selections "
+    rule="exporter: exporters built with the real exporter helper (logs/traces/metrics) from random option lists (own capability "
+         "declaration none/false/true, batching through sending_queue::batch / legacy batcher / none, neutral options, random "
+         "order): advertised MutatesData compared with exporterCap. router: connector.New{Logs,Metrics,Traces}Router(...).Consumer(selected pipelines...) on random pipeline sets and selections "
          "(half of them a single pipeline), read-only/mutable input, plus every capability vector <= 3 x every single selection; "
          "compared with the same fan-out model. fanout (one consumer may cancel the request context while it is served): random capability vectors (1-7 consumers), read-only/mutable input, failure patterns, synchronous and asynchronous "
          "writers, one undeclared writer, on the real fan-out of all four signals, plus EXHAUSTIVE capability vectors of length <= 5 "
